@@ -389,9 +389,20 @@ class ProgGen:
             return f"{{'x': {a}, 1: {b}, 'n': {{'y': {c}}}}}"
         if f == 'listcomp':
             x1 = self.fresh('cx')
+            k = r.random()
+            if k < 0.35:
+                # several filter clauses: all of them must hold
+                return (f"[{x1} + {a} for {x1} in range({r.randint(3, 9)}) if {x1} {r.choice(['>', '>=', '!='])} {r.randint(0, 4)} "
+                        f"if {x1} {r.choice(['<', '<=', '!='])} {r.randint(2, 8)}" + (f" if {x1} % 2 == {r.randint(0, 1)}" if r.random() < 0.4 else '') + "]")
+            if k < 0.5:
+                y1 = self.fresh('cy')
+                return f"[{x1} * 10 + {y1} for {x1} in range({r.randint(1, 3)}) for {y1} in range({r.randint(1, 3)}) if {x1} != {y1}]"
             return f"[{x1} + {a} for {x1} in range({r.randint(0, 5)}) if {x1} % 2 == {r.randint(0, 1)}]"
         if f == 'dictcomp':
             k1, v1 = self.fresh('ck'), self.fresh('cv')
+            if r.random() < 0.35:
+                return (f"{{{k1}: {v1} * {r.randint(1, 3)} for {k1}, {v1} in zip(['a', 'b', 'c'], [{a}, {b}, {c}]) if {v1} != {self.const()} "
+                        f"if {k1} != {r.choice(['a', 'b', 'c'])!r}}}")
             return f"{{{k1}: {v1} * {r.randint(1, 3)} for {k1}, {v1} in zip(['a', 'b', 'c'], [{a}, {b}, {c}]) if {v1} != {self.const()}}}"
         if f == 'star':
             return f"[*[{a}, {b}], *({c},), {self.const()}]"
